@@ -9,7 +9,7 @@ PROPS = {
         "level": "proof",
         "lean": ["PasfmtModel.Props.C01"],
         "streams": [
-            {"stream": "fmt", "families": ALL_FAMILIES + ",mlsfam,regions", "quick": 3200, "thorough": 40000, "binding": FMT_BINDING_C01},
+            {"stream": "fmt", "families": ALL_FAMILIES + ",mlsfam,regions", "quick": 8000, "thorough": 40000, "binding": FMT_BINDING_C01},
             {"stream": "lex", "families": ALL_FAMILIES, "quick": 1500, "thorough": 20000, "name": "lexer"},
         ],
         "oracle_prefixes": ["c01", "glue", "lex"],
@@ -25,7 +25,7 @@ PROPS = {
         "level": "proof",
         "lean": ["PasfmtModel.Props.C02"],
         "streams": [
-            {"stream": "fmt", "families": "seeds_sample,grammar,layout,regions,mlsfam,marked", "quick": 3000, "thorough": 50000,
+            {"stream": "fmt", "families": "seeds_sample,grammar,layout,regions,mlsfam,marked", "quick": 7500, "thorough": 50000,
              "binding": ["prec", "rx", "out", "*"], "args": {"oracles": "c02"}},
         ],
         "oracle_prefixes": ["c02", "glue"],
@@ -44,7 +44,7 @@ PROPS = {
         "level": "other",
         "lean": ["PasfmtModel.Props.C03"],
         "streams": [
-            {"stream": "fmt", "families": "seeds_sample,grammar,layout,regions,mlsfam,marked,boundary,boundary,mlscancel,mlsshift,mlsshift,condinline", "quick": 3600, "thorough": 50000,
+            {"stream": "fmt", "families": "seeds_sample,grammar,layout,regions,mlsfam,marked,boundary,boundary,mlscancel,mlsshift,mlsshift,condinline", "quick": 9000, "thorough": 50000,
              "binding": ["prec", "wp", "wcn", "sx", "out", "*"], "args": {"oracles": "c03"}},
         ],
         "oracle_prefixes": ["c03", "glue"],
@@ -58,9 +58,9 @@ PROPS = {
         "level": "other",
         "lean": ["PasfmtModel.Props.C05"],
         "streams": [
-            {"stream": "fmt", "families": "marked", "quick": 6000, "thorough": 40000, "binding": ["cl", "wp", "sx", "out", "*"], "args": {"oracles": "c05"}},
+            {"stream": "fmt", "families": "marked", "quick": 15000, "thorough": 40000, "binding": ["cl", "wp", "sx", "out", "*"], "args": {"oracles": "c05"}},
             # lines and levels come from the parser: the exact Lean model of its control flow against the real parser
-            {"stream": "pfull", "name": "parser", "families": "marked,grammar,layout,seeds_sample", "quick": 4000, "thorough": 40000, "binding": ["pl", "*"]},
+            {"stream": "pfull", "name": "parser", "families": "marked,grammar,layout,seeds_sample", "quick": 10000, "thorough": 40000, "binding": ["pl", "*"]},
         ],
         "oracle_prefixes": ["c05", "glue"],
         "abnormal_binding": False,
@@ -74,11 +74,11 @@ PROPS = {
         "level": "other",
         "lean": ["PasfmtModel.Props.C06"],
         "streams": [
-            {"stream": "fmt", "families": "relayout", "quick": 2500, "thorough": 40000, "binding": ["pre", "out", "*"], "args": {"oracles": "c06"}},
+            {"stream": "fmt", "families": "relayout", "quick": 6250, "thorough": 40000, "binding": ["pre", "out", "*"], "args": {"oracles": "c06"}},
             # ParserKindsOnly: the Lean model of the parser reads token kinds (and line-break flags, used inside asm blocks only) and nothing else
-            {"stream": "pfull", "name": "parser", "families": "layout,grammar,seeds_sample,regions", "quick": 3000, "thorough": 30000, "binding": ["pk", "pl", "*"]},
+            {"stream": "pfull", "name": "parser", "families": "layout,grammar,seeds_sample,regions", "quick": 7500, "thorough": 30000, "binding": ["pk", "pl", "*"]},
             {"stream": "fmt", "name": "pairs", "families": "pairs", "quick": 30000, "thorough": 200000, "binding": ["pre", "*"], "args": {}},
-            {"stream": "fmt", "name": "pairs_enum", "families": "pairs_enum", "quick": 4000, "thorough": 831875, "multi_seed": False,
+            {"stream": "fmt", "name": "pairs_enum", "families": "pairs_enum", "quick": 10000, "thorough": 831875, "multi_seed": False,
              "binding": ["pre", "*"], "args": {}},
         ],
         "oracle_prefixes": ["c06", "glue"],
@@ -94,7 +94,7 @@ PROPS = {
         "level": "other",
         "lean": ["PasfmtModel.Props.C11"],
         "streams": [
-            {"stream": "fmt", "families": "seeds_sample,grammar,layout,marked,boundary", "quick": 3000, "thorough": 40000, "binding": ["out", "*"], "args": {"oracles": "c11"}},
+            {"stream": "fmt", "families": "seeds_sample,grammar,layout,marked,boundary", "quick": 7500, "thorough": 40000, "binding": ["out", "*"], "args": {"oracles": "c11"}},
             # every wrap column of small single-statement programs (full sweep of the three clauses)
             {"stream": "fmt", "name": "mini", "families": "c11mini", "quick": 1500, "thorough": 20000, "binding": ["out", "*"], "args": {"oracles": "c11"}},
         ],
@@ -111,12 +111,12 @@ PROPS = {
         "level": "other",
         "lean": ["PasfmtModel.Props.C04"],
         "streams": [
-            {"stream": "fmt", "families": "soup,bytes,mutate,directives,dirsoup,seeds_sample,layout,deepnest,lexfam", "quick": 4200, "thorough": 80000,
+            {"stream": "fmt", "families": "soup,bytes,mutate,directives,dirsoup,seeds_sample,layout,deepnest,lexfam", "quick": 10500, "thorough": 80000,
              "binding": ["*"], "args": {"oracles": "c15,c04", "timeout_ms": 20000}},
-            {"stream": "parse", "families": "soup,bytes,mutate,directives,dirsoup,layout", "quick": 3000, "thorough": 40000, "name": "counters"},
+            {"stream": "parse", "families": "soup,bytes,mutate,directives,dirsoup,layout", "quick": 7500, "thorough": 40000, "name": "counters"},
             # the total, fuel-bounded Lean model of the whole parser answers (never `model-none`: no panic site reached, fuel 200*(n+10) not exhausted) and agrees
-            {"stream": "pfull", "name": "parser", "families": "soup,bytes,mutate,dirsoup,deepnest", "quick": 4000, "thorough": 40000, "binding": ["pk", "pl", "*"]},
-            {"stream": "fmt", "name": "enum", "families": "soup_enum", "quick": 3000, "thorough": 1010100, "multi_seed": False,
+            {"stream": "pfull", "name": "parser", "families": "soup,bytes,mutate,dirsoup,deepnest", "quick": 10000, "thorough": 40000, "binding": ["pk", "pl", "*"]},
+            {"stream": "fmt", "name": "enum", "families": "soup_enum", "quick": 7500, "thorough": 1010100, "multi_seed": False,
              "binding": ["*"], "args": {"timeout_ms": 20000}},
         ],
         "oracle_prefixes": ["c04", "c15: PANIC"],
@@ -134,11 +134,11 @@ PROPS = {
         "level": "proof",
         "lean": ["PasfmtModel.Props.C14"],
         "streams": [
-            {"stream": "parse", "families": ALL_FAMILIES + ",directives", "quick": 4000, "thorough": 60000},
+            {"stream": "parse", "families": ALL_FAMILIES + ",directives", "quick": 10000, "thorough": 60000},
             # the whole parser (control flow included) against its exact Lean model: final token kinds and lines
-            {"stream": "pfull", "name": "parser", "families": ALL_FAMILIES + ",marked,regions,condinline,pairs", "quick": 5000, "thorough": 60000, "binding": ["pk", "pl", "*"]},
+            {"stream": "pfull", "name": "parser", "families": ALL_FAMILIES + ",marked,regions,condinline,pairs", "quick": 12500, "thorough": 60000, "binding": ["pk", "pl", "*"]},
             # the three post-parse consolidators (exact models): kinds and lines after them, computed from the parser's own output
-            {"stream": "fmt", "name": "consolidators", "families": ALL_FAMILIES + ",directives,condinline,marked,regions", "quick": 3000, "thorough": 40000,
+            {"stream": "fmt", "name": "consolidators", "families": ALL_FAMILIES + ",directives,condinline,marked,regions", "quick": 7500, "thorough": 40000,
              "binding": ["ck", "cl"], "args": {"oracles": "c14"}},
         ],
         "oracle_prefixes": ["c14"],
@@ -157,7 +157,7 @@ PROPS = {
         "level": "proof",
         "lean": ["PasfmtModel.Props.C07"],
         "streams": [
-            {"stream": "fmt", "families": ALL_FAMILIES + ",regions,asmreg", "quick": 3000, "thorough": 40000,
+            {"stream": "fmt", "families": ALL_FAMILIES + ",regions,asmreg", "quick": 7500, "thorough": 40000,
              "binding": ["cl", "marks", "lv", "prec", "wc", "wp", "wcn", "sx", "out", "*"], "args": {"oracles": "c07"}},
         ],
         "oracle_prefixes": ["c07", "glue"],
@@ -175,7 +175,7 @@ PROPS = {
         "level": "proof",
         "lean": ["PasfmtModel.Props.C08"],
         "streams": [
-            {"stream": "fmt", "families": ALL_FAMILIES + ",pairs,condinline,mlsshift", "quick": 3500, "thorough": 40000,
+            {"stream": "fmt", "families": ALL_FAMILIES + ",pairs,condinline,mlsshift", "quick": 8750, "thorough": 40000,
              "binding": ["pre", "wp", "wcn", "sx", "out", "*"], "args": {"oracles": "c08"}},
         ],
         "oracle_prefixes": ["c08", "glue"],
@@ -191,7 +191,7 @@ PROPS = {
         "level": "proof",
         "lean": ["PasfmtModel.Props.C09"],
         "streams": [
-            {"stream": "fmt", "families": ALL_FAMILIES + ",mlsfam", "quick": 2800, "thorough": 30000,
+            {"stream": "fmt", "families": ALL_FAMILIES + ",mlsfam", "quick": 7000, "thorough": 30000,
              "binding": ["pre", "wc", "out", "*"], "args": {"oracles": "c09"}},
         ],
         "oracle_prefixes": ["c09", "glue"],
@@ -205,7 +205,7 @@ PROPS = {
         "level": "proof",
         "lean": ["PasfmtModel.Props.C10"],
         "streams": [
-            {"stream": "fmt", "families": "seeds_sample,grammar,layout", "quick": 2500, "thorough": 30000,
+            {"stream": "fmt", "families": "seeds_sample,grammar,layout", "quick": 6250, "thorough": 30000,
              "binding": ["out", "*"], "args": {"oracles": "c10"}},
         ],
         "oracle_prefixes": ["c10", "glue"],
@@ -221,7 +221,7 @@ PROPS = {
         "level": "proof",
         "lean": ["PasfmtModel.Props.C12"],
         "streams": [
-            {"stream": "fmt", "families": "mlsfam,mlsfam,mlsshift,mlsshift,seeds_sample,layout,bytes", "quick": 3500, "thorough": 40000,
+            {"stream": "fmt", "families": "mlsfam,mlsfam,mlsshift,mlsshift,seeds_sample,layout,bytes", "quick": 8750, "thorough": 40000,
              "binding": ["wc", "wp", "wcn", "sx", "prec", "out", "*"], "args": {"oracles": "c12"}},
         ],
         "oracle_prefixes": ["c12", "glue"],
@@ -239,7 +239,7 @@ PROPS = {
         "level": "proof",
         "lean": ["PasfmtModel.Props.C15"],
         "streams": [
-            {"stream": "fmt", "families": ALL_FAMILIES, "quick": 2500, "thorough": 30000,
+            {"stream": "fmt", "families": ALL_FAMILIES, "quick": 6250, "thorough": 30000,
              "binding": ["cur", "out", "*"], "args": {"oracles": "c15"}},
             {"stream": "fmt", "name": "allcursors", "families": "seeds_sample,soup,bytes,regions,mlsfam", "quick": 1200, "thorough": 20000,
              "binding": ["cur", "*"], "args": {"oracles": "c15", "cursors_all": 1}},
@@ -311,7 +311,7 @@ PROPS = {
         "level": "proof",
         "lean": ["PasfmtModel.Props.C13"],
         "streams": [
-            {"stream": "lex", "families": ALL_FAMILIES + ",lexfam,tokfam", "quick": 4000, "thorough": 60000},
+            {"stream": "lex", "families": ALL_FAMILIES + ",lexfam,tokfam", "quick": 10000, "thorough": 60000},
         ],
         "oracle_prefixes": ["lex"],
         "abnormal_binding": True,
